@@ -2,6 +2,7 @@
 pub mod episode;
 pub mod exec;
 pub mod model;
+pub mod penv;
 pub mod prng;
 pub mod sched;
 pub mod simenv_case;
